@@ -16,9 +16,39 @@ from torch_frame.data import MultiEmbeddingTensor, MultiNestedTensor
 from harness import common as C
 from harness import ragged as R
 
+# CLAUSES of the property (properties.jsonl, C06), one line each:
+#   clause                                         | oracle key(s) that judge it                       | generator kinds that exercise it
+CLAUSES = [
+    ("build from cells, read cells back = identity", "wrong-cells:*:from, raises:*:from, from-not-identity:*, ill-formed:*:from",
+     "every base/ref node (from_tensor_mat list/tuple rows, from_tensor_list via cells and via explicit column "
+     "tensors 'basecols', int64/int32/float64/float32); scenario 'from' incl. malformed input"),
+    ("cat along rows = cells of the parts in order", "wrong-cells:*:cat0, raises:*:cat0, ill-formed:*:cat0, unreadable:*:cat0",
+     "scenarios roundtrip/zero-total/cat/fill/dense/clone/dict/tensor; dim 0 and -3; dim keyword / positional / "
+     "omitted (default 0); parts list / tuple; static method / torch_frame.cat"),
+    ("cat along columns = rows appended pairwise", "wrong-cells:*:cat1, raises:*:cat1, ill-formed:*:cat1", "same, dim 1 and -2"),
+    ("split by any partition (empty parts, parts that are selections) and cat restores an equal container",
+     "generator-bug (sanity of the partition), roundtrip-not-allclose:*, not-allclose-rebuilt:*, wrong-cells:*:cat*",
+     "scenario roundtrip (whole = base or selection of a base; spans as slice/list/tensor/range, via __getitem__, "
+     "select(), select() with negative dim, narrow(), index_select()); zero-total (whole has 0 rows / 0 cols); "
+     "thorough: all partitions into <= 3 parts of 16 small containers"),
+    ("parts whose row (resp. column) counts disagree are rejected", "no-raise:*:cat0, no-raise:*:cat1, no-raise:dict:cat",
+     "scenario reject (count mismatch), reject-widths (MET: equal num_cols, other widths), dict with foreign shape"),
+    ("empty argument lists are rejected", "no-raise:*:cat0/cat1", "scenario reject with xs = [] (static and torch_frame.cat)"),
+    ("clone gives an equal container", "wrong-cells:*:clone, wrong-class:*:clone", "scenario clone, clone nodes inside cat/fill trees, store programs"),
+    ("clone shares no storage", "clone-shares-storage:*, store-diff:* (writes to the clone / to the source do not show in the other)",
+     "clone nodes (untyped_storage pointers), scenario store (fillna_col on clone or source, all variables re-read)"),
+    ("padding to dense = every cell followed only by the fill value", "wrong-dense:mnt, raises:mnt:to_dense",
+     "scenario dense + 10-15 % of roundtrip/fill/clone cases; fill positional / keyword; several fills incl. NaN"),
+    ("fillna_col changes exactly the missing entries of one column", "wrong-cells:*:fill, fill-layout:*, raises:*:fill, store-diff:*",
+     "scenario fill (every column, fill again), fill value scalar / 0-dim tensor, positional / keyword; "
+     "scenario store (write-through to views and sources is predicted by the store model)"),
+    ("arguments of cat / clone / to_dense are not modified", "source-modified:*, store-diff:*", "every cat node (snapshots), scenario store"),
+    ("torch_frame.cat dispatch on tensor data (Tensor / MNT / MET / dict)", "same keys with kind dense / dict", "via=tf, scenarios tensor, dict"),
+]
+
 PROP = "C06"
-HEADER = "Require Import PF.Lib.PySlice PF.Model.Ragged PF.Model.RaggedRun PF.Model.RaggedCat."
-MODEL_TARGETS = ["Model/RaggedCat.vo"]
+HEADER = "Require Import PF.Lib.PySlice PF.Model.Ragged PF.Model.RaggedRun PF.Model.RaggedCat PF.Model.RaggedStore."
+MODEL_TARGETS = ["Model/RaggedCat.vo", "Model/RaggedStore.vo"]
 SHARD = 330
 RULE = ("expression trees over MultiNestedTensor / MultiEmbeddingTensor (bases 1-5 x 1-4 with unique-id payloads, "
         "selections, cat on both axes via the static methods and torch_frame.cat, fillna_col, clone, to_dense); "
@@ -201,13 +231,18 @@ def gen_case(rng, tier):
     dtype = rng.pick(["int", "float"])
     bases = []
     scen = rng.wpick([(29, "roundtrip"), (8, "zero-total"), (21, "cat"), (8, "reject"), (13, "fill"),
-                      (9, "dense"), (5, "clone"), (5, "from"), (4, "dict"), (4, "tensor")])
+                      (9, "dense"), (5, "clone"), (5, "from"), (4, "dict"), (4, "tensor"), (9, "store")])
     if scen == "dense":
         kind = "mnt"
     case = {"kind": kind, "dtype": dtype, "bases": bases, "scenario": scen, "final": {"op": "cells"}}
     ctx = {"kind": kind, "dtype": dtype}
     via = rng.pick(["static", "static", "tf"])
     fills = INT_FILLS if dtype == "int" else FLOAT_FILLS
+
+    if scen == "store":
+        case["prog"] = gen_prog(rng, ctx)
+        case["expr"] = {"t": "prog"}
+        return case
 
     if scen in ("roundtrip", "zero-total"):
         cells = gen_cells(rng, kind, dtype, rng.randint(1, 5), rng.randint(1, 4))
@@ -448,9 +483,143 @@ def small_scope(tier):
     return out
 
 
+def gen_prog(rng, ctx):
+    """a program over named objects: constructors, selections (mostly the ones that return views), clone, cat,
+    and in-place fillna_col, with reads after the writes"""
+    kind, dtype = ctx["kind"], ctx["dtype"]
+    fills = INT_FILLS if dtype == "int" else FLOAT_FILLS
+    prog, vars_ = [], []
+
+    def push(st_, state):
+        prog.append(st_)
+        vars_.append(state)
+
+    ws0 = gen_widths(rng, rng.randint(1, 4)) if kind == "met" else None
+    nc0 = len(ws0) if ws0 else rng.randint(1, 4)
+    for _ in range(rng.randint(1, 2)):
+        cells = gen_cells(rng, kind, dtype, rng.randint(1, 5), nc0, ws=ws0)
+        push({"op": "base", "cells": cells}, ref_base(cells, kind, "p"))
+    n_fill = 0
+    for step in range(rng.randint(3, 7)):
+        r = rng.random()
+        v = rng.randrange(len(vars_))
+        stv = vars_[v]
+        if r < 0.34:
+            d = rng.pick([0, 0, 1])
+            n = stv["nr"] if d == 0 else stv["nc"]
+            q = rng.random()
+            if q < 0.5 and n > 0:
+                a = rng.randint(0, n - 1)
+                ix = {"t": "slice", "a": a, "b": rng.randint(a, n) if rng.chance(0.8) else None, "s": rng.pick([None, None, 1])}
+            elif q < 0.65 and n > 0:
+                ix = {"t": "int", "i": rng.randint(-n, n - 1)}
+            elif q < 0.75:
+                ix = {"t": "slice", "a": None, "b": None, "s": None}
+            else:
+                ix = _valid_index(rng, n)
+            nr, nc, cells = R.ref_select((stv["nr"], stv["nc"], stv["cells"]), ix, d)
+            st2 = {"nr": nr, "nc": nc, "cells": cells}
+            if "ws" in stv:
+                st2["ws"] = stv["ws"] if d == 0 else [stv["ws"][j] for j in R.ref_positions(ix, stv["nc"])]
+            push({"op": "sel", "v": v, "dim": d, "idx": ix}, st2)
+        elif r < 0.5:
+            push({"op": "clone", "v": v}, dict(stv))
+        elif r < 0.7:
+            d = rng.pick([0, 1])
+            def ok(o):
+                if d == 0:
+                    return o["nc"] == stv["nc"] and o.get("ws") == stv.get("ws")
+                return o["nr"] == stv["nr"]
+            cand = [k for k, o in enumerate(vars_) if ok(o)]
+            vs = [v] + [rng.pick(cand) for _ in range(rng.wpick([(3, 0), (4, 1), (2, 2)]))]
+            rng.shuffle(vs)
+            parts = [vars_[k] for k in vs]
+            if d == 0:
+                st2 = {"nr": sum(p["nr"] for p in parts), "nc": stv["nc"], "cells": [row for p in parts for row in p["cells"]]}
+                if "ws" in stv:
+                    st2["ws"] = stv["ws"]
+            else:
+                st2 = {"nr": stv["nr"], "nc": sum(p["nc"] for p in parts),
+                       "cells": [[c for p in parts for c in p["cells"][i]] for i in range(stv["nr"])]}
+                if "ws" in stv:
+                    st2["ws"] = [w for p in parts for w in p["ws"]]
+            push({"op": "cat", "vs": vs, "dim": pick_dim(rng, d), "via": rng.pick(["static", "tf"])}, st2)
+        elif stv["nc"] > 0:
+            push({"op": "fill", "v": v, "col": rng.randrange(stv["nc"]), "value": rng.pick(fills)}, dict(stv))
+            n_fill += 1
+    if n_fill == 0:
+        v = rng.randrange(len(vars_))
+        if vars_[v]["nc"] > 0:
+            prog.append({"op": "fill", "v": v, "col": rng.randrange(vars_[v]["nc"]), "value": rng.pick(fills)})
+    return prog
+
+
+def decorate(rng, case):
+    """Draw every call form the public signatures accept (the tree and its nested-list meaning stay the same):
+    positional / keyword / defaulted dim, list / tuple of parts, __getitem__ / select / narrow / index_select,
+    scalar / 0-dim tensor fill values, cpu() / to() / constructor-from-to_dict() copies, 32-bit payloads."""
+    kind = case["kind"]
+    ctx = {"kind": kind, "dtype": case["dtype"]}
+    bases = case["bases"]
+    if kind in ("mnt", "met", "dense"):
+        case["width"] = rng.pick([64, 64, 32])
+    if "prog" in case:
+        return case
+    if kind == "mnt":
+        case["base_seq"] = rng.pick(["list", "list", "tuple"])
+
+    def deco(node):
+        t = node["t"]
+        node = dict(node)
+        if t == "base" and kind == "mnt":
+            node["seq"] = rng.pick(["list", "list", "tuple"])
+        elif t == "sel":
+            node["s"] = deco(node["s"])
+            ix = node["idx"]
+            opts = ["getitem", "getitem", "select", "select_neg"]
+            if ix["t"] == "tensor":
+                opts += ["index_select", "index_select"]
+            if ix["t"] == "slice" and ix["s"] in (None, 1) and kind != "dense":
+                opts += ["narrow", "narrow"]
+            if kind == "dense":
+                opts = ["getitem"]
+            via = rng.pick(opts)
+            if via == "narrow":
+                st = _shape(node["s"], bases, ctx)
+                if st is None:
+                    via = "getitem"
+                else:
+                    n = st["nr"] if node["dim"] == 0 else st["nc"]
+                    a, b, _ = slice(ix["a"], ix["b"], ix["s"]).indices(n)
+                    node["start"], node["length"] = a, b - a
+            node["via"] = via
+        elif t in ("fill", "clone", "ident"):
+            node["s"] = deco(node["s"])
+            if t == "fill":
+                node["form"] = rng.pick(["pos", "pos", "kw"])
+                node["vform"] = rng.pick(["scalar", "scalar", "tensor"])
+        elif t == "cat":
+            node["xs"] = [deco(x) for x in node["xs"]]
+            node["seq"] = rng.pick(["list", "list", "tuple"])
+            forms = ["kw", "kw", "pos"]
+            if node["dim"] == 0 and node["via"] == "static":
+                forms += ["default", "default"]
+            node["form"] = rng.pick(forms)
+        elif t == "dictcat":
+            node["parts"] = [{k: deco(v) for k, v in dct.items()} for dct in node["parts"]]
+        if kind in ("mnt", "met") and t in ("base", "ref", "sel", "cat", "clone") and rng.chance(0.05):
+            node = {"t": "ident", "s": node, "how": rng.pick(["cpu", "to", "todict"])}
+        return node
+
+    case["expr"] = deco(case["expr"])
+    if case["final"]["op"] == "dense":
+        case["final"] = dict(case["final"], form=rng.pick(["kw", "pos"]))
+    return case
+
+
 def generate(rng, tier):
     n = 1800 if tier == "quick" else 30000
-    cases = [gen_case(rng, tier) for _ in range(n)]
+    cases = [decorate(rng, gen_case(rng, tier)) for _ in range(n)]
     if tier == "thorough":
         cases += small_scope(tier)
     return cases
@@ -538,7 +707,7 @@ def ref_eval(node, bases, path, case, rec=None):
         cells = [[([v if is_missing(x, dtype) else x for x in c] if jj == j else list(c))
                   for jj, c in enumerate(row)] for row in s["cells"]]
         st = dict(s, cells=cells)
-    elif t == "clone":
+    elif t in ("clone", "ident"):
         st = dict(ref_eval(node["s"], bases, path + ".s", case, rec))
     else:
         raise ValueError(t)
@@ -559,9 +728,29 @@ class NodeFail(Exception):
         self.path, self.op, self.exc = path, op, exc
 
 
-def build_any(kind, dtype, cells):
+def torch_dtype(dtype, width=64):
+    if dtype == "float":
+        return torch.float64 if width == 64 else torch.float32
+    return torch.long if width == 64 else torch.int32
+
+
+def build_any(kind, dtype, cells, width=64, seq="list"):
+    td = torch_dtype(dtype, width)
+    if kind in ("mnt", "met") and len(cells) > 0 and len(cells[0]) > 0:
+        def tens(c):
+            return torch.tensor([float("nan") if x is None else x for x in c], dtype=td)
+        if kind == "mnt":
+            mat = [[tens(c) for c in row] for row in cells]
+            if seq == "tuple":
+                mat = tuple(tuple(r) for r in mat)
+            return MultiNestedTensor.from_tensor_mat(mat)
+        if all(len(r) == len(cells[0]) for r in cells):
+            cols = []
+            for j in range(len(cells[0])):
+                w = len(cells[0][j])
+                cols.append(torch.stack([tens(row[j]) for row in cells]).reshape(len(cells), w))
+            return MultiEmbeddingTensor.from_tensor_list(cols)
     if kind == "dense":
-        td = torch.float64 if dtype == "float" else torch.long
         if len(cells) == 0:
             return torch.zeros((0, 0), dtype=td)
         return torch.tensor([[float("nan") if c[0] is None else c[0] for c in row] for row in cells],
@@ -591,6 +780,8 @@ def op_name(node):
         return f"sel{node['dim']}({node['idx']['t']})"
     if t in ("base", "ref", "basecols"):
         return "from"
+    if t == "ident":
+        return "ident:" + node["how"]
     return t
 
 
@@ -600,31 +791,55 @@ def impl_eval(node, case, objs, path, rec):
     t = node["t"]
     obs = {"op": op_name(node)}
     try:
+        width = case.get("width", 64)
         if t == "base":
-            r = build_any(kind, dtype, node["cells"])
+            r = build_any(kind, dtype, node["cells"], width, node.get("seq", "list"))
+        elif t == "ident":
+            s0 = impl_eval(node["s"], case, objs, path + ".s", rec)
+            how = node["how"]
+            if how == "cpu":
+                r = s0.cpu()
+            elif how == "to":
+                r = s0.to(torch.device("cpu"))
+            else:                      # the plain constructor on the serialised fields
+                r = type(s0)(**s0.to_dict())
         elif t == "basecols":
-            td = torch.float64 if dtype == "float" else torch.long
+            td = torch_dtype(dtype, width)
             r = MultiEmbeddingTensor.from_tensor_list([
                 torch.tensor([[float("nan") if x is None else x for x in cell] for cell in col], dtype=td)
                 .reshape(len(col), len(col[0]) if col else 0) for col in node["cols"]])
         elif t == "ref":
             k = node["k"]
             if k not in objs:
-                objs[k] = build_any(kind, dtype, case["bases"][k])
+                objs[k] = build_any(kind, dtype, case["bases"][k], width, case.get("base_seq", "list"))
             r = objs[k]
         elif t == "sel":
             s = impl_eval(node["s"], case, objs, path + ".s", rec)
             ix = R.to_py_index(node["idx"])
-            r = s[ix] if node["dim"] == 0 else s[:, ix]
+            via, d = node.get("via", "getitem"), node["dim"]
+            if via == "select":
+                r = s.select(ix, d)
+            elif via == "select_neg":
+                r = s.select(ix, dim=d - 3)
+            elif via == "narrow":
+                r = s.narrow(d, node["start"], node["length"])
+            elif via == "index_select":
+                r = s.index_select(ix, d)
+            else:
+                r = s[ix] if d == 0 else s[:, ix]
         elif t == "cat":
             parts = [impl_eval(x, case, objs, f"{path}.xs[{i}]", rec) for i, x in enumerate(node["xs"])]
             snaps = [R.snapshot(p) if kind != "dense" else p.clone() for p in parts]
-            if node["via"] == "tf":
-                r = torch_frame.cat(parts, dim=node["dim"])
-            elif kind == "mnt":
-                r = MultiNestedTensor.cat(parts, dim=node["dim"])
+            args = tuple(parts) if node.get("seq") == "tuple" else parts
+            form = node.get("form", "kw")
+            fn = torch_frame.cat if node["via"] == "tf" else \
+                (MultiNestedTensor.cat if kind == "mnt" else MultiEmbeddingTensor.cat)
+            if form == "default":
+                r = fn(args)
+            elif form == "pos":
+                r = fn(args, node["dim"])
             else:
-                r = MultiEmbeddingTensor.cat(parts, dim=node["dim"])
+                r = fn(args, dim=node["dim"])
             if kind != "dense":
                 obs["src_same"] = all(R.same_snapshot(p, s) for p, s in zip(parts, snaps))
                 obs["class_ok"] = type(r) is (MultiNestedTensor if kind == "mnt" else MultiEmbeddingTensor)
@@ -633,7 +848,13 @@ def impl_eval(node, case, objs, path, rec):
             off_before = r.offset.clone()
             shape_before = (r.num_rows, r.num_cols)
             v = node["value"]
-            ret = r.fillna_col(node["col"], float("nan") if v is None else v)
+            fv = float("nan") if v is None else v
+            if node.get("vform") == "tensor":
+                fv = torch.tensor(fv, dtype=r.values.dtype)
+            if node.get("form") == "kw":
+                ret = r.fillna_col(col_index=node["col"], fill_value=fv)
+            else:
+                ret = r.fillna_col(node["col"], fv)
             obs["returns_none"] = ret is None
             obs["layout_same"] = bool(torch.equal(off_before, r.offset)) and shape_before == (r.num_rows, r.num_cols)
         elif t == "clone":
@@ -661,7 +882,136 @@ def impl_eval(node, case, objs, path, rec):
     return r
 
 
+def prog_ref(case):
+    """What the property says about a program: the cells of every variable at the end, or None where the property
+    is silent (an object that may share storage with one that was written: selections and one-element cats of it)."""
+    kind, dtype = case["kind"], case["dtype"]
+    objs = []      # [state or None, alias class] ; a fill rebinds the SAME record
+    ncls = [0]
+
+    def fresh():
+        ncls[0] += 1
+        return ncls[0]
+    for st_ in case["prog"]:
+        op = st_["op"]
+        if op == "base":
+            objs.append([ref_base(st_["cells"], kind, "p"), fresh()])
+            continue
+        if op == "cat":
+            parts = [objs[k] for k in st_["vs"]]
+            d = st_["dim"] % 3 if st_["dim"] < 0 else st_["dim"]
+            if len(parts) == 1:
+                objs.append([None if parts[0][0] is None else dict(parts[0][0]), parts[0][1]])
+                continue
+            if any(p[0] is None for p in parts):
+                objs.append([None, fresh()])
+                continue
+            ps = [p[0] for p in parts]
+            if d == 0:
+                st2 = {"nr": sum(p["nr"] for p in ps), "nc": ps[0]["nc"], "cells": [row for p in ps for row in p["cells"]]}
+            else:
+                st2 = {"nr": ps[0]["nr"], "nc": sum(p["nc"] for p in ps),
+                       "cells": [[c for p in ps for c in p["cells"][i]] for i in range(ps[0]["nr"])]}
+            objs.append([st2, fresh()])
+            continue
+        src = objs[st_["v"]]
+        if op == "clone":
+            objs.append([None if src[0] is None else dict(src[0]), fresh()])
+        elif op == "sel":
+            if src[0] is None:
+                objs.append([None, src[1]])
+            else:
+                nr, nc, cells = R.ref_select((src[0]["nr"], src[0]["nc"], src[0]["cells"]), st_["idx"], st_["dim"])
+                objs.append([{"nr": nr, "nc": nc, "cells": cells}, src[1]])
+        elif op == "fill":
+            for o in objs:
+                if o is not src and o[1] == src[1]:
+                    o[0] = None                     # may or may not share storage: the property does not say
+            if src[0] is not None:
+                j, v = st_["col"], st_["value"]
+                src[0] = dict(src[0], cells=[[([v if is_missing(x, dtype) else x for x in c] if jj == j else list(c))
+                                               for jj, c in enumerate(row)] for row in src[0]["cells"]])
+            objs.append(src)
+    return [o[0] for o in objs]
+
+
+def run_prog(case):
+    kind, dtype = case["kind"], case["dtype"]
+    width = case.get("width", 64)
+    objs = []
+    out = {"nodes": {}, "prog": {}}
+    for k, st_ in enumerate(case["prog"]):
+        op = st_["op"]
+        try:
+            if op == "base":
+                r = build_any(kind, dtype, st_["cells"], width)
+            elif op == "sel":
+                ix = R.to_py_index(st_["idx"])
+                r = objs[st_["v"]][ix] if st_["dim"] == 0 else objs[st_["v"]][:, ix]
+            elif op == "clone":
+                r = objs[st_["v"]].clone()
+            elif op == "cat":
+                parts = [objs[v] for v in st_["vs"]]
+                fn = torch_frame.cat if st_["via"] == "tf" else \
+                    (MultiNestedTensor.cat if kind == "mnt" else MultiEmbeddingTensor.cat)
+                r = fn(parts, dim=st_["dim"])
+            else:
+                r = objs[st_["v"]]
+                v = st_["value"]
+                r.fillna_col(st_["col"], float("nan") if v is None else v)
+        except Exception as ex:
+            out["prog"] = {"ok": False, "step": k, "op": op, "exc": C.exc_name(ex), "msg": str(ex)[:120]}
+            return out
+        objs.append(r)
+    final = []
+    for o in objs:
+        try:
+            nr, nc, cells = read_any(kind, o)
+            final.append({"ok": True, "nr": nr, "nc": nc, "cells": cells, "wf": R.wf_report(o)})
+        except Exception as ex:
+            final.append({"ok": False, "cells_exc": C.exc_name(ex)})
+    out["prog"] = {"ok": True, "vars": final}
+    return out
+
+
+def oracle_prog(case, obs):
+    kind = case["kind"]
+    po = obs.get("prog", {})
+    if not po.get("ok"):
+        return dict(key=f"raises:{kind}:store:{po.get('op')}", what=f"statement {po.get('step')} ({po.get('op')}) "
+                    f"raised {po.get('exc')} ({po.get('msg')})", observed=po)
+    ref = prog_ref(case)
+    for k, (st, ob) in enumerate(zip(ref, po["vars"])):
+        if not ob["ok"] or ob.get("wf"):
+            return dict(key=f"ill-formed:{kind}:store", what=f"variable {k} cannot be read / is ill-formed after the program",
+                        observed=ob)
+        if st is None:
+            continue
+        if (ob["nr"], ob["nc"]) != (st["nr"], st["nc"]) or ob["cells"] != st["cells"]:
+            return dict(key=f"store-diff:{kind}",
+                        what=f"variable {k} (made by {case['prog'][k]['op']}) does not hold the cells the property "
+                             "demands after the program: an object that shares no storage with a written one "
+                             "changed, an argument was modified, or a write did not land",
+                        expected=st, observed={q: ob[q] for q in ("nr", "nc", "cells")})
+    return None
+
+
+def coq_stmt(st_):
+    op = st_["op"]
+    if op == "base":
+        return f"PBase {R.coq_cells(st_['cells'])}"
+    if op == "sel":
+        return f"PSel {st_['v']}%nat {st_['dim']}%nat {R.coq_index(st_['idx'])}"
+    if op == "clone":
+        return f"PClone {st_['v']}%nat"
+    if op == "cat":
+        return f"PCat {C.clist(st_['vs'], C.cnat)} {C.cz(st_['dim'])} {C.cbool(st_['via'] == 'tf')}"
+    return f"PFill {st_['v']}%nat {st_['col']}%nat {R.coq_scalar(st_['value'])}"
+
+
 def run(case):
+    if "prog" in case:
+        return run_prog(case)
     rec = {}
     out = {"nodes": rec}
     objs = {}
@@ -680,7 +1030,7 @@ def run(case):
         if expr["t"] in ("cat", "clone", "fill") and "cells" in ro and ro["nr"] >= 1 and ro["nc"] >= 1 \
                 and ro["nr"] == len(ro["cells"]):
             try:
-                rebuilt = R.build(kind, case["dtype"], ro["cells"])
+                rebuilt = build_any(kind, case["dtype"], ro["cells"], case.get("width", 64))
                 out["allclose_rebuilt"] = bool(type(root).allclose(root, rebuilt, equal_nan=True))
             except Exception as ex:
                 out["allclose_rebuilt"] = "exc:" + C.exc_name(ex)
@@ -694,7 +1044,8 @@ def run(case):
         if case["final"]["op"] == "dense":
             v = case["final"]["fill"]
             try:
-                dn = root.to_dense(fill_value=float("nan") if v is None else v)
+                fv = float("nan") if v is None else v
+                dn = root.to_dense(fv) if case["final"].get("form") == "pos" else root.to_dense(fill_value=fv)
                 out["dense"] = {"ok": True, "shape": list(dn.shape),
                                 "data": [[[R.scal(x) for x in c] for c in row] for row in dn.tolist()]}
             except Exception as ex:
@@ -750,6 +1101,8 @@ def oracle(case, obs):
         return dict(key="harness-exc", what="harness failed to run the case: " + obs["harness_exc"], tb=obs.get("tb"))
     kind = case["kind"]
     expr = case["expr"]
+    if "prog" in case:
+        return oracle_prog(case, obs)
     if expr["t"] == "dictcat":
         return oracle_dict(case, obs)
     ref_rec = {}
@@ -870,8 +1223,10 @@ def _subnodes(node):
 def shrink_node(node, case=None):
     """smaller variants of a node"""
     t = node["t"]
-    if t in ("sel", "fill", "clone"):
+    if t in ("sel", "fill", "clone", "ident"):
         yield node["s"]
+        if t == "sel" and node.get("via", "getitem") != "getitem":
+            yield {k: v for k, v in node.items() if k not in ("via", "start", "length")}
         if t == "fill":
             for j in {0, node["col"] - 1} - {node["col"], -1}:
                 yield dict(node, col=j)
@@ -917,6 +1272,26 @@ def shrink_node(node, case=None):
 
 
 def shrink(case):
+    if "prog" in case:
+        prog = case["prog"]
+        # drop the last statement, or a statement nobody refers to (renumbering the later variables)
+        for k in range(len(prog) - 1, -1, -1):
+            used = any((st_.get("v") == k) or (k in st_.get("vs", [])) for st_ in prog[k + 1:])
+            if used:
+                continue
+            def ren(x):
+                return x - 1 if x > k else x
+            new = []
+            for st_ in prog[:k] + prog[k + 1:]:
+                st2 = dict(st_)
+                if "v" in st2:
+                    st2["v"] = ren(st2["v"])
+                if "vs" in st2:
+                    st2["vs"] = [ren(x) for x in st2["vs"]]
+                new.append(st2)
+            if new:
+                yield dict(case, prog=new)
+        return
     if case["expr"]["t"] == "dictcat":
         return
     if case["final"]["op"] != "cells":
@@ -944,7 +1319,7 @@ def _inline_ref(node, k, cells):
     t = node["t"]
     if t == "ref":
         return {"t": "base", "cells": cells} if node["k"] == k else node
-    if t in ("sel", "fill", "clone"):
+    if t in ("sel", "fill", "clone", "ident"):
         return dict(node, s=_inline_ref(node["s"], k, cells))
     if t == "cat":
         return dict(node, xs=[_inline_ref(x, k, cells) for x in node["xs"]])
@@ -964,12 +1339,19 @@ def tree_sig(node):
         return f"fill({tree_sig(node['s'])})"
     if t == "clone":
         return f"clone({tree_sig(node['s'])})"
+    if t == "ident":
+        return f"{node['how']}({tree_sig(node['s'])})"
     return t
 
 
 def nontrivial_sig(case, obs):
     nodes = obs.get("nodes") or {}
     expr = case["expr"]
+    if "prog" in case:
+        po = obs.get("prog", {})
+        sig = [(st_["op"], st_.get("dim"), (st_.get("idx") or {}).get("t"), len(st_.get("vs", []))) for st_ in case["prog"]]
+        shapes = [(v.get("nr"), v.get("nc")) for v in po.get("vars", [])]
+        return json.dumps(["store", case["kind"], case["dtype"], sig, shapes, po.get("ok")])
     if expr["t"] == "dictcat":
         d = obs.get("dict", {})
         return json.dumps(["dict", case["dtype"], expr["dim"], len(expr["parts"]), list(expr["parts"][0].keys()),
@@ -984,7 +1366,7 @@ def nontrivial_sig(case, obs):
 
 def _walk(node):
     yield node
-    if node["t"] in ("sel", "fill", "clone"):
+    if node["t"] in ("sel", "fill", "clone", "ident"):
         yield from _walk(node["s"])
     elif node["t"] == "cat":
         for x in node["xs"]:
@@ -998,7 +1380,7 @@ def _walk(node):
 def stats(cases, obss):
     d = {"total": 0, "scenario": {}, "kind": {}, "cat_axis": {}, "cat_via": {}, "cat_parts": {}, "node_ops": {},
          "expected_rejections": 0, "raised": 0, "cat_with_empty_part": 0, "cat_with_selected_part": 0,
-         "root_empty": 0, "fills": 0, "dense": 0}
+         "root_empty": 0, "fills": 0, "dense": 0, "forms": {}}
     for c, o in zip(cases, obss):
         if c is None or o is None:
             continue
@@ -1007,10 +1389,42 @@ def stats(cases, obss):
         kd = c["kind"] + "/" + c["dtype"]
         d["kind"][kd] = d["kind"].get(kd, 0) + 1
         nodes = o.get("nodes", {})
+        if "prog" in c:
+            sp = d.setdefault("store_ops", {})
+            for st_ in c["prog"]:
+                sp[st_["op"]] = sp.get(st_["op"], 0) + 1
+            ref = prog_ref(c)
+            d["store_silent_vars"] = d.get("store_silent_vars", 0) + sum(1 for x in ref if x is None)
+            d["store_judged_vars"] = d.get("store_judged_vars", 0) + sum(1 for x in ref if x is not None)
+            if not o.get("prog", {}).get("ok"):
+                d["raised"] += 1
+            continue
         if "failed_at" in o or (o.get("dict") and not o["dict"].get("ok")):
             d["raised"] += 1
         if c["final"]["op"] == "dense":
             d["dense"] += 1
+        fm = d.setdefault("forms", {})
+
+        def bump(k):
+            fm[k] = fm.get(k, 0) + 1
+        bump(f"width{c.get('width', 64)}:{c['dtype']}")
+        if c["final"]["op"] == "dense":
+            bump("to_dense:" + c["final"].get("form", "kw"))
+        for n in _walk(c["expr"]):
+            if n["t"] == "cat":
+                bump("cat.dim:" + n.get("form", "kw"))
+                bump("cat.xs:" + n.get("seq", "list"))
+            elif n["t"] == "sel":
+                bump("sel:" + n.get("via", "getitem"))
+            elif n["t"] == "fill":
+                bump("fill.args:" + n.get("form", "pos"))
+                bump("fill.value:" + n.get("vform", "scalar"))
+            elif n["t"] == "ident":
+                bump("ident:" + n["how"])
+            elif n["t"] == "base" and c["kind"] == "mnt":
+                bump("from_tensor_mat:" + n.get("seq", "list"))
+            elif n["t"] == "ref" and c["kind"] == "mnt":
+                bump("from_tensor_mat:" + c.get("base_seq", "list"))
         for n in _walk(c["expr"]):
             d["node_ops"][n["t"]] = d["node_ops"].get(n["t"], 0) + 1
             if n["t"] == "fill":
@@ -1047,7 +1461,7 @@ def sanity(cases, obss):
     if n < 200:
         return probs          # replay / tiny runs
     for sc in ("roundtrip", "zero-total", "cat", "reject", "reject-widths", "fill", "dense", "clone", "from", "dict",
-               "tensor"):
+               "tensor", "store"):
         if d["scenario"].get(sc, 0) == 0:
             probs.append(f"scenario {sc} never drawn")
     for kd in ("mnt/int", "mnt/float", "met/int", "met/float", "dense/int", "dense/float"):
@@ -1074,6 +1488,17 @@ def sanity(cases, obss):
         probs.append("fillna_col / to_dense / clone never drawn")
     if d["node_ops"].get("basecols", 0) == 0:
         probs.append("from_tensor_list on explicit column tensors never drawn")
+    for op in ("base", "sel", "clone", "cat", "fill"):
+        if d.get("store_ops", {}).get(op, 0) == 0:
+            probs.append(f"store programs never contain {op}")
+    for k in ("cat.dim:kw", "cat.dim:pos", "cat.dim:default", "cat.xs:list", "cat.xs:tuple",
+              "sel:getitem", "sel:select", "sel:select_neg", "sel:narrow", "sel:index_select",
+              "fill.args:pos", "fill.args:kw", "fill.value:scalar", "fill.value:tensor",
+              "to_dense:kw", "to_dense:pos", "ident:cpu", "ident:to", "ident:todict",
+              "from_tensor_mat:list", "from_tensor_mat:tuple",
+              "width64:int", "width32:int", "width64:float", "width32:float"):
+        if d.get("forms", {}).get(k, 0) == 0:
+            probs.append(f"call form {k} never drawn")
     return probs
 
 
@@ -1093,6 +1518,8 @@ def coq_src(node, case):
         return f"(SFill {coq_src(node['s'], case)} {node['col']}%nat {R.coq_scalar(node['value'])})"
     if t == "clone":
         return f"(SClone {coq_src(node['s'], case)})"
+    if t == "ident":                 # cpu() / to(cpu) / cls(**to_dict()): the same container
+        return coq_src(node["s"], case)
     raise ValueError(t)
 
 
@@ -1121,6 +1548,13 @@ def coq_term(case, obs):
         return None
     expr = case["expr"]
     na = coq_na(case)
+    if "prog" in case:
+        po = obs.get("prog", {})
+        if po.get("ok") and any(not v["ok"] for v in po["vars"]):
+            return None
+        seen = "None" if not po.get("ok") else "(Some " + C.clist(po["vars"], coq_cobs) + ")"
+        fn = "case_store_mnt" if case["kind"] == "mnt" else "case_store_met"
+        return f"{fn} {na} {C.clist(case['prog'], coq_stmt)} {seen}"
     if case["kind"] == "dense":
         root = obs["nodes"].get("x") if "failed_at" not in obs else None
         if root is None:
